@@ -80,17 +80,44 @@ func (pr *Prompter) getExpressionOrig(reader *bufio.Reader) (readin string, err 
 	return line, nil
 }
 
+// replReadError marks an error from reading the terminal or standard
+// input, as opposed to an error in what was read: asking again gives
+// the same error again.
+type replReadError struct {
+	cause error
+}
+
+func (e *replReadError) Error() string {
+	return e.cause.Error()
+}
+
+// nextLine reads one line, after the continuation prompt if there is one.
+// liner reads Stdin only. If noLiner, then we read from reader.
+func (pr *Prompter) nextLine(reader *bufio.Reader, noLiner bool, contPrompt *string) (string, error) {
+	var line string
+	var err error
+	if noLiner {
+		if contPrompt == nil {
+			fmt.Print(pr.prompt)
+		} else {
+			fmt.Print(*contPrompt)
+		}
+		line, err = getLine(reader)
+	} else {
+		line, err = pr.Getline(contPrompt)
+	}
+	if err != nil {
+		return "", &replReadError{cause: err}
+	}
+	return line, nil
+}
+
 // liner reads Stdin only. If noLiner, then we read from reader.
 func (pr *Prompter) getExpressionWithLiner(env *Zlisp, reader *bufio.Reader, noLiner bool) (readin string, xs []Sexp, err error) {
 
 	var line, nextline string
 
-	if noLiner {
-		fmt.Print(pr.prompt)
-		line, err = getLine(reader)
-	} else {
-		line, err = pr.Getline(nil)
-	}
+	line, err = pr.nextLine(reader, noLiner, nil)
 	if err != nil {
 		return "", nil, err
 	}
@@ -120,12 +147,7 @@ func (pr *Prompter) getExpressionWithLiner(env *Zlisp, reader *bufio.Reader, noL
 		}
 
 		if err == ErrMoreInputNeeded || err == UnexpectedEnd || err == ResetRequested {
-			if noLiner {
-				fmt.Print(continuationPrompt)
-				nextline, err = getLine(reader)
-			} else {
-				nextline, err = pr.Getline(&continuationPrompt)
-			}
+			nextline, err = pr.nextLine(reader, noLiner, &continuationPrompt)
 			if err != nil {
 				return "", nil, err
 			}
@@ -151,12 +173,7 @@ func processDumpCommand(env *Zlisp, args []string) {
 
 func Repl(env *Zlisp, cfg *ZlispConfig) {
 
-	var reader *bufio.Reader
-	if cfg.NoLiner {
-		// reader is used if one wishes to drop the liner library.
-		// Useful for not full terminal env, like under test.
-		reader = bufio.NewReader(os.Stdin)
-	}
+	noLiner := cfg.NoLiner
 
 	if cfg.Trace {
 		// debug tracing
@@ -171,22 +188,36 @@ func Repl(env *Zlisp, cfg *ZlispConfig) {
 		}
 		fmt.Printf("press tab (repeatedly) to get completion suggestions. Shift-tab goes back. Ctrl-d to exit.\n")
 	}
-	var pr *Prompter // can be nil if noLiner
-	if !cfg.NoLiner {
+	var pr *Prompter
+	if !noLiner {
 		pr = NewPrompter(cfg.Prompt)
 		defer pr.Close()
+		// no terminal on standard input (a pipe, a file, /dev/null):
+		// no line editor, read plain lines.
+		noLiner = !pr.HasEditor()
 	} else {
 		pr = &Prompter{prompt: cfg.Prompt}
+	}
+	var reader *bufio.Reader
+	if noLiner {
+		// reader is used if one wishes to drop the liner library.
+		// Useful for not full terminal env, like under test.
+		reader = bufio.NewReader(os.Stdin)
 	}
 	infixSym := env.MakeSymbol("infix")
 
 	for {
-		line, exprsInput, err := pr.getExpressionWithLiner(env, reader, cfg.NoLiner)
+		line, exprsInput, err := pr.getExpressionWithLiner(env, reader, noLiner)
 		//Q("\n exprsInput(len=%d) = '%v'\n line = '%s'\n", len(exprsInput), (&SexpArray{Val: exprsInput}).SexpString(nil), line)
 		if err != nil {
 			fmt.Println(err)
-			if err == io.EOF {
-				os.Exit(0)
+			if rerr, isReadErr := err.(*replReadError); isReadErr {
+				if rerr.cause == io.EOF {
+					os.Exit(0)
+				}
+				// the input cannot be read: asking again
+				// would fail again, for ever.
+				return
 			}
 			env.Clear()
 			continue
